@@ -107,7 +107,7 @@ func main() {
 	for _, native := range []bool{true, false} {
 		name := map[bool]string{true: "native", false: "shadow"}[native]
 		xrun.Explore(r, "loop-"+name, xrun.Opts{Kind: "x", Bound: bound, Budget: 30, Recycle: 4,
-			Param: loopworld.Cfg{Native: native, Remote2: true, Straddle: true, LoopFirst: r.Thorough(), MaxVisits: 2}})
+			Param: loopworld.Cfg{Native: native, Remote2: true, NoopRemote: true, Straddle: true, LoopFirst: r.Thorough(), MaxVisits: 2}})
 		if r.Expired() {
 			continue
 		}
